@@ -41,9 +41,9 @@ class Dev:
 
 
 def shards(tier, seed):
-    n = 60 if tier == "quick" else 1200
+    n = 60 if tier == "quick" else 6000
     out = [dict(kind="hw", branch=i, seed=seed * 100 + i, n=n) for i in range(len(BRANCHES))]
-    out += [dict(kind="gen", seed=seed * 1000 + i, n=150 if tier == "quick" else 3000) for i in range(8)]
+    out += [dict(kind="gen", seed=seed * 1000 + i, n=150 if tier == "quick" else 20000) for i in range(8)]
     return out
 
 
